@@ -48,7 +48,7 @@ func newVerifier(tier string) (*Verifier, error) {
 		V.Timeout = 120 * time.Second
 	}
 	V.U = newUniverse(P)
-	pre, _ := filepath.Glob("/verif/spec/*.smt2")
+	pre, _ := filepath.Glob(specDir() + "/*.smt2")
 	sort.Strings(pre)
 	if err := V.U.loadPrelude(pre, func(f string) (string, error) { b, err := os.ReadFile(f); return string(b), err }); err != nil {
 		return nil, err
@@ -231,7 +231,7 @@ func (V *Verifier) queryText(o *Oblig) string {
 		b.WriteString(V.relevantAxioms(inst + body.String()))
 		b.WriteString(inst)
 		b.WriteString(body.String())
-	} else if o.Kind == "lemma" {
+	} else if o.Kind == "lemma" || o.lemmaBody != "" {
 		for _, d := range o.lemmaDecls {
 			b.WriteString(d)
 			b.WriteString("\n")
